@@ -24,6 +24,8 @@ class Spec(MQSpec):
 
     def generate(self, ch, prof):
         sc = G.gen_c08(ch, prof)
+        for spec_ in sc['nodes'].values():
+            spec_.pop('loop_exc', None)      # the loop_exc=False relay finding of C08 is not C18's subject
         # run length relative to the heartbeat interval: from shorter than one interval to many
         interval = ch.pick('gen', [1, 2, 5, 10])
         ratio = ch.pick('gen', [3, 0.3, 1, 8])
